@@ -82,4 +82,16 @@ CHECKS = {
         technique='static pointer-provenance / escape analysis over reaching definitions with interprocedural summaries (clang JSON AST)',
         design_ref='3-E, 4-C12',
     ),
+    'C16': dict(
+        category='other',
+        text='Decides the table/format clauses exhaustively (every one of the 848 table entries): URL literal set is URL-safe and '
+             'excludes the reserved characters, Base64 alphabet is RFC 4648, reader tables invert writer tables with the skip '
+             'marker elsewhere, hex is lowercase on output and both cases on input, \'=\' padding structure, output allocations '
+             'cover the worst case, 256-entry tables are indexed by unsigned bytes, \'+\'->space and case-folding %hh. Round-trip '
+             'equality for all byte strings (the decoders\' bit arithmetic) is a value computation and is NOT decided.',
+        note='Tables are read from initialiser lists of the type-checked AST and located by role/length; output-size expressions '
+             'are evaluated in the checker\'s integer domain for n = 1..600.',
+        technique='static constant-table conformance and inversion check over AST initialiser lists, plus structural rules on the codec functions',
+        design_ref='3-G, 4-C16',
+    ),
 }
